@@ -1046,3 +1046,39 @@ pub fn big5_two_codepoint_text(rng: &mut Rng) -> Vec<u8> {
     }
     out
 }
+
+/// Mostly-ASCII prose longer than the analysis window, with a few two-byte sequences – valid in every East Asian
+/// double-byte encoding and in the single-byte pages alike – placed behind the first sampled chunk: the first chunk reads
+/// the same (pure ASCII) under every candidate, the whole text under none of them
+pub fn ascii_with_double_byte_pairs(rng: &mut Rng) -> Vec<u8> {
+    let base = "The quick brown fox jumps over the lazy dog while the committee considers the annual report of the northern district. ";
+    let len = rng.range(2800, 9000);
+    let mut b: Vec<u8> = base.bytes().cycle().take(len).collect();
+    let pairs: [[u8; 2]; 4] = [[0xb0, 0xa1], [0xc4, 0xe3], [0xb1, 0xb8], [0xa4, 0xa2]];
+    let n = rng.range(1, 5);
+    for _ in 0..n {
+        let pos = rng.range(600, len - 2);
+        let p = pairs[rng.below(4)];
+        b[pos] = p[0];
+        b[pos + 1] = p[1];
+    }
+    b
+}
+
+/// Entries of a filter list that name no encoding, in every shape a reader of the message might mishandle: empty, blank,
+/// very long, with multi-byte characters straddling every small byte offset (27..=41 bytes of ASCII before a run of
+/// 2-, 3- and 4-byte characters), with NUL, quotes, braces and format-string leftovers
+pub fn odd_unknown_labels() -> Vec<String> {
+    let mut v: Vec<String> = vec!["".into(), " ".into(), "\u{0}".into(), "{}".into(), "{0:?}%s%n".into(), "\"quoted\"".into(), "x".repeat(300), "é".repeat(200)];
+    for pre in 27..=41usize {
+        v.push(format!("{}{}", "x".repeat(pre), "é".repeat(12)));
+        if pre % 3 == 0 {
+            v.push(format!("{}{}", "y".repeat(pre), "€".repeat(8)));
+            v.push(format!("{}{}", "z".repeat(pre), "😀".repeat(6)));
+        }
+    }
+    for pre in [62usize, 63, 64, 65, 126, 127, 128, 129, 254, 255, 256, 257] {
+        v.push(format!("{}{}", "w".repeat(pre), "ü€😀".repeat(3)));
+    }
+    v
+}
